@@ -187,3 +187,125 @@ func VerifC15_MustFail() {
 	verifAssert(na.Port == int(b[5])<<8|int(b[4]), "twin: little-endian port (must fail)")
 	verifReach("end")
 }
+
+// ---- bencode-level entry points of the krpc package (the decoder proper is a stub: see assumptions) ----
+
+// verifWire frames n arbitrary bytes as the bencode byte string "<n>:<bytes>".
+func verifWire(n int) ([]byte, []byte) {
+	payload := verifBytes(n)
+	var hdr []byte
+	if n >= 10 {
+		hdr = append(hdr, byte('0'+n/10))
+	}
+	hdr = append(hdr, byte('0'+n%10), ':')
+	return append(hdr, payload...), payload
+}
+
+// ID.UnmarshalBencode: exactly the 20-byte strings decode to that ID; shorter ones are an error.
+func VerifC15_IDBencode() {
+	n := verifChoice(0, 21)
+	w, payload := verifWire(n)
+	var id ID
+	err := id.UnmarshalBencode(w)
+	if n < 20 {
+		verifAssert(err != nil, "C15 ID: a string shorter than 20 bytes is an error")
+		verifReach("short")
+		return
+	}
+	verifAssert(err == nil, "C15 ID: 20 bytes decode")
+	verifAssert(verifSameBytes(id[:], payload[:20]), "C15 ID: decoded bytes are the string's first 20 bytes")
+	if n == 20 {
+		out, merr := id.MarshalBencode()
+		verifAssert(merr == nil && verifSameBytes(out, w), "C15 ID: re-encoding reproduces the wire bytes")
+	}
+	verifReach("end")
+}
+
+func verifDecodeList(b []byte) ([]interface{}, bool)
+
+// Error.UnmarshalBencode over every decoded value shape: a list [int, string, ...] or a bare string
+// decodes; anything else is an error; nothing panics.
+func VerifC15_ErrorValue() {
+	elem := func() interface{} {
+		switch verifChoice(0, 4) {
+		case 0:
+			return verifNondetI64()
+		case 1:
+			return verifSymString(verifChoice(0, 2))
+		case 2:
+			return []interface{}{}
+		case 3:
+			return map[string]interface{}{}
+		}
+		return nil
+	}
+	var v interface{}
+	var want bool
+	switch verifChoice(0, 3) {
+	case 0:
+		v = verifSymString(verifChoice(0, 3))
+		want = true
+	case 1:
+		v = verifNondetI64()
+	case 2:
+		v = map[string]interface{}{}
+	case 3:
+		n := verifChoice(0, 3)
+		l := make([]interface{}, n)
+		for i := range l {
+			l[i] = elem()
+		}
+		v = l
+		if n >= 2 {
+			_, ok0 := l[0].(int64)
+			_, ok1 := l[1].(string)
+			want = ok0 && ok1
+		}
+	}
+	var e Error
+	err := e.UnmarshalBencode(verifEncode(v, 8))
+	verifAssert((err == nil) == want, "C15 Error: decodes exactly [int, string, ...] lists and bare strings")
+	if l, ok := v.([]interface{}); ok && want {
+		verifAssert(int64(e.Code) == l[0].(int64) && e.Msg == l[1].(string), "C15 Error: code and message are the list's first two elements")
+		verifReach("list")
+	}
+	if s, ok := v.(string); ok {
+		verifAssert(e.Msg == s, "C15 Error: a bare string is the message")
+	}
+	verifReach("end")
+}
+
+// The bencode wrappers of the compact types: the byte string is handed to UnmarshalBinary unchanged.
+func VerifC15_BencodeWrappers() {
+	which := verifChoice(0, 2)
+	size := []int{26, 6, 20}[which]
+	n := []int{0, size - 1, size, size + 1}[verifChoice(0, 3)]
+	w, payload := verifWire(n)
+	var err error
+	var out []byte
+	switch which {
+	case 0:
+		var x CompactIPv4NodeInfo
+		err = x.UnmarshalBencode(w)
+		if err == nil {
+			out, _ = x.MarshalBinary()
+		}
+	case 1:
+		var x CompactIPv4NodeAddrs
+		err = x.UnmarshalBencode(w)
+		if err == nil {
+			out, _ = x.MarshalBinary()
+		}
+	case 2:
+		var x CompactInfohashes
+		err = x.UnmarshalBencode(w)
+		if err == nil {
+			out, _ = x.MarshalBinary()
+		}
+	}
+	verifAssert((err == nil) == (n%size == 0), "C15 wrappers: exactly multiples of the entry size decode")
+	if err == nil {
+		verifAssert(verifSameBytes(out, payload), "C15 wrappers: re-encoding reproduces the payload")
+	}
+	verifReach("end")
+}
